@@ -197,6 +197,9 @@ pub fn make_case(prop: &str, seed: u64) -> Case {
             log_setup(&mut case, &mut rng);
         }
         "C05" | "C06" | "C13" => {
+            if prop == "C13" {
+                case.gen.codec_corners = true;
+            }
             case.gen.topics = rng.below(2) as u32;
             case.gen.partitions = 1 + rng.below(3) as u32;
             case.gen.ops = 30 + rng.below(120) as u32;
@@ -223,8 +226,22 @@ pub fn make_case(prop: &str, seed: u64) -> Case {
                 tick: 3,
                 ..Default::default()
             };
+            if prop == "C13" {
+                mix.garbage = 12;
+                mix.unauth = 2;
+                mix.users = 16;
+                mix.send = 14;
+                mix.poll = 10;
+                mix.store_offset = 4;
+                mix.get_offset = 3;
+            }
             perturb(&mut rng, &mut mix);
             mix.catalogue = mix.catalogue.max(20);
+            if prop == "C13" {
+                mix.garbage = mix.garbage.max(6);
+                case.gen.header_chance = 0.6;
+                case.gen.payload_lens = vec![1, 2, 10, 100, 1000, 5000];
+            }
             if prop == "C05" {
                 mix.restart_clean = mix.restart_clean.max(5);
             }
@@ -261,12 +278,40 @@ pub fn make_case(prop: &str, seed: u64) -> Case {
             } else {
                 Mix { users: 70, catalogue: 4, send: 2, poll: 2, get_topic: 3, jump: 8, job_clean_tokens: 4, tick: 3, audit: 2, restart_clean: 6, restart_flush_kill: 1, connect: 3, ..Default::default() }
             };
+            if prop == "C09" {
+                mix.unauth = 6;
+            }
             perturb(&mut rng, &mut mix);
             mix.users = mix.users.max(30);
             case.gen.mix = mix;
             log_setup(&mut case, &mut rng);
             case.setup.push(Op::CreateStream { c: 0, id: Some(2), name: "str-2".into() });
             case.setup.push(Op::CreateTopic { c: 0, stream: IdRef::Num(2), id: Some(1), name: "top-1".into(), partitions: 1, expiry: Expiry::Never, max_size: MaxSize::Unlimited, replication: None, compression: 1 });
+            // every other connection starts as a non-root user with a swarm-generated record
+            for c in 1..case.gen.clients {
+                let name = format!("setup-user-{c}");
+                let password = format!("setup-secret-pw-{c}-{}", rng.below(1_000_000));
+                let density = *rng.pick(&[0.05, 0.15, 0.3, 0.5]);
+                let mut global = [false; 10];
+                for f in global.iter_mut() {
+                    *f = rng.chance(density);
+                }
+                let mut streams = Vec::new();
+                for sid in [1u32, 2] {
+                    if rng.chance(0.7) {
+                        let sd = *rng.pick(&[0.0, 0.2, 0.5]);
+                        let mut f = [false; 6];
+                        for x in f.iter_mut() {
+                            *x = rng.chance(sd);
+                        }
+                        let table = if rng.chance(0.5) { None } else { Some(vec![(1u32, [rng.chance(0.4), rng.chance(0.4), rng.chance(0.4), rng.chance(0.4)])]) };
+                        streams.push((sid, f, table));
+                    }
+                }
+                let perms = if rng.chance(0.1) { None } else { Some(PermSpec { global, streams: if streams.is_empty() { None } else { Some(streams) } }) };
+                case.setup.push(Op::CreateUser { c: 0, name: name.clone(), password: password.clone(), active: true, perms });
+                case.setup.push(Op::Login { c, name, password });
+            }
         }
         "C07" => {
             case.gen.topics = 1 + rng.below(2) as u32;
